@@ -81,6 +81,7 @@ def run(ctx) -> None:
     r14_4(ctx)
     r14_5(ctx)
     r14_6(ctx)
+    r14_7(ctx)
     ctx.floor("registration_sites", 3)
     ctx.floor("unwind_scenarios", 312)
 
@@ -707,6 +708,17 @@ def _r14_5_factory(ctx, factory, w, reg, arg, fparam) -> None:
     rebinds = [x for x in own_nodes(factory.node) if isinstance(x, ast.Name) and isinstance(x.ctx, ast.Store) and x.id == fparam]
     ctx.check(not rebinds, "R14.5", factory, factory.node.name, f"`{fparam}` captured by the returned coroutine is not re-bound in the factory")
     _r14_5_bound_callback(ctx, m, reg, inline_locals(ctx, m, mcfg, reg, arg), reg.ast.args[0])
+
+
+def r14_7(ctx) -> None:
+    """An exit adapter of the stack must let its callback's exception through: no ``return`` / ``break`` out of a
+    ``finally`` in contextlib (C06's rule, shared) — `try: await cb() finally: return False` would swallow it."""
+    from . import c06
+    from .common import Relabel, real_units
+    ctx.rule("R14.7", "no return / break / continue leaves a finally block in contextlib: an exit that raises replaces the exception in flight (R06.3, shared)")
+    for u in real_units(ctx):
+        if u.module.short == "contextlib":
+            c06._finally_blocks(Relabel(ctx, "R14.7"), u)
 
 
 def r14_5(ctx) -> None:
